@@ -132,7 +132,24 @@ func (c *Context) NewFloat(x *big.Float) *decimal.Decimal {
 
 // NewFloat64 returns a new *decimal.Decimal set to the (possibly rounded) value
 // of x.
-func (c *Context) NewFloat64(x float64) *decimal.Decimal {
+func (c *Context) NewFloat64(x float64) (r *decimal.Decimal) {
+	if handleNaNs {
+		z := c.New()
+		defer func() {
+			if err := recover(); err != nil {
+				// SetFloat64(NaN): record it like the operators do
+				e, ok := err.(decimal.ErrNaN)
+				if !ok {
+					panic(err)
+				}
+				if c.err == nil {
+					c.err = e
+				}
+				r = z
+			}
+		}()
+		return z.SetFloat64(x)
+	}
 	return c.New().SetFloat64(x)
 }
 
